@@ -7,6 +7,7 @@ import (
 	"math/rand"
 	"sort"
 	"strings"
+	"sync"
 	"sync/atomic"
 	"time"
 
@@ -463,6 +464,88 @@ func runC03(c *harness.Case) {
 	}
 	for _, R := range after {
 		s.readPass("C03", R, fmt.Sprintf("pass-C(after Compact(%d))", Rc), r)
+	}
+	if c.Index%4 == 2 && c.R.Verdict == "held" && len(after) > 0 {
+		// the same reads from six clients at once over the now unchanging history: what another reader is doing inside
+		// the engine (an iterator being positioned, a scan in progress) must not show in anybody's snapshot
+		full := harness.Prefix + "/"
+		fullEnd := string(backend.PrefixEnd([]byte(full)))
+		var wg sync.WaitGroup
+		var mu sync.Mutex
+		firstBad := ""
+		var nReads int64
+		for g := 0; g < 6; g++ {
+			wg.Add(1)
+			rr := newRand(r.Int63())
+			go func(g int) {
+				defer wg.Done()
+				bad := func(msg string) {
+					mu.Lock()
+					if firstBad == "" {
+						firstBad = msg
+					}
+					mu.Unlock()
+				}
+				for i := 0; i < 150; i++ {
+					R := after[rr.Intn(len(after))]
+					if rr.Intn(3) == 0 {
+						R = 0
+					}
+					eff := R
+					if R == 0 {
+						eff = n.Committed()
+					}
+					atomic.AddInt64(&nReads, 1)
+					if rr.Intn(2) == 0 {
+						k := s.keys[rr.Intn(len(s.keys))]
+						want := s.m.At(k, eff)
+						gr, err := n.Get(k, R)
+						if err != nil {
+							bad(fmt.Sprintf("reader %d: Get(%q,rev=%d) error %v", g, k, R, err))
+							return
+						}
+						if want != nil && bytes.Equal(want.Val, []byte("tombstone")) {
+							continue // the recorded finding, not this monitor's subject
+						}
+						if ok := (want == nil && gr.Kv == nil) || (want != nil && gr.Kv != nil && bytes.Equal(gr.Kv.Value, want.Val) && gr.Kv.Revision == want.Rev); !ok {
+							got := "absent"
+							if gr.Kv != nil {
+								got = fmt.Sprintf("(%q,%d)", trimB(gr.Kv.Value), gr.Kv.Revision)
+							}
+							bad(fmt.Sprintf("reader %d: Get(%q,rev=%d) returned %s; snapshot says %s", g, k, R, got, verS(want)))
+							return
+						}
+						continue
+					}
+					want := s.m.Snapshot(full, fullEnd, eff)
+					if len(dropMarker(want)) != len(want) {
+						continue
+					}
+					lim := int64(0)
+					if rr.Intn(2) == 0 && len(want) > 0 {
+						lim = int64(1 + rr.Intn(len(want)))
+					}
+					resp, err := n.List(full, fullEnd, R, lim)
+					if err != nil {
+						bad(fmt.Sprintf("reader %d: List(rev=%d,limit=%d) error %v", g, R, lim, err))
+						return
+					}
+					w := want
+					if lim > 0 && int64(len(want)) > lim {
+						w = want[:lim]
+					}
+					if !sameKVs(w, resp.Kvs) {
+						bad(fmt.Sprintf("reader %d: List(rev=%d,limit=%d) returned %s; snapshot says %s", g, R, lim, kvStr(resp.Kvs), mkvStr(w)))
+						return
+					}
+				}
+			}(g)
+		}
+		wg.Wait()
+		c.Stat("reads_by_concurrent_readers", atomic.LoadInt64(&nReads))
+		if firstBad != "" {
+			c.Violatef("C03 read-differs-from-snapshot readers=concurrent", s.witness(), "six clients reading an unchanging history at the same time: %s", firstBad)
+		}
 	}
 	if fw != nil && c.R.Verdict == "held" {
 		s.transientIterFaults(fw, r)
